@@ -894,6 +894,10 @@ func (d *c16Drv) hist(w []string) string {
 		c := d.send(at(1), id, `{"del":{"id":"`+id+`","topic":"`+tn+`","what":"topic","hard":true}}`)
 		return "DELTOPIC " + c16Code(c)
 	case "DELUSER": // DELUSER <u>  (by the root session of user 1)
+		if d.users[at(1)].IsZero() {
+			// the account was never created (an {acc user="new"} that the generator expected to succeed did not)
+			return "DELUSER nouser"
+		}
 		id := d.nextID()
 		c := d.send(1, id, `{"del":{"id":"`+id+`","what":"user","user":"`+d.users[at(1)].UserId()+`","hard":true}}`)
 		return "DELUSER " + c16Code(c)
@@ -1019,6 +1023,9 @@ func (d *c16Drv) line(w []string) string {
 		return "RESOLVE " + d.fileIndex(id.String())
 	}
 	if r, ok := d.c16bLine(w); ok { // zz_verif_c16b_test.go: sender modes, 'sys', faults, ageing
+		return r
+	}
+	if r, ok := d.c16cLine(w); ok { // zz_verif_c16c_test.go: full-field download requests, {set desc} under store faults
 		return r
 	}
 	return d.hist(w)
